@@ -172,4 +172,22 @@ RunClauses(o, run, contents) == <<
     <<"SinglePub",       SinglePubP(run)>>,
     <<"KeyFreshPerRun",  KeyFreshPerRunP(o, run)>>,
     <<"SigVerifies",     AllSigsVerifyP(run, contents)>> >>
+
+(***************************************************************************)
+(* 3. Authorization messages (`signapp message`), invoked repeatedly, the  *)
+(* -o path possibly holding an authorization from an earlier invocation    *)
+(* (for another image / iteration).  What can be seen of one invocation:   *)
+(*   img, iter : the image and the iteration asked for                     *)
+(*   out       : 0 = printed, n > 0 = the n-th output path (-o)            *)
+(*   exit      : exit code                                                 *)
+(*   found     : after the invocation an authorization message is there    *)
+(*               (printed / readable at the -o path)                       *)
+(*   hash, gotiter : the hash and the iteration it embeds                  *)
+(* want = the hash of the image given to THIS invocation.                  *)
+(***************************************************************************)
+NoAuth == [found |-> FALSE, hash |-> 0, gotiter |-> 0]
+AuthBindsP(step, want) == step.found /\ step.hash = want /\ step.gotiter = step.iter
+AuthClauses(step, want) == <<
+    <<"AuthCompleted", step.exit = 0>>,
+    <<"AuthBinds",     AuthBindsP(step, want)>> >>
 =============================================================================
